@@ -32,6 +32,23 @@ type recWAL struct {
 	log   *kit.WriteLog
 	snaps []map[string][]byte // durable contents at each observed fsync
 	on    bool
+	// sizeAt[i] = size of each WAL file on disk just before write-log entry i was made: what
+	// a torn image for a crash before entry i may contain beyond the last fsync
+	sizeAt map[int]map[string]int64
+}
+
+func (w *recWAL) noteSizes(idx int) {
+	if !w.on {
+		return
+	}
+	m := map[string]int64{}
+	ents, _ := os.ReadDir(w.dir)
+	for _, e := range ents {
+		if fi, err := e.Info(); err == nil {
+			m[e.Name()] = fi.Size()
+		}
+	}
+	w.sizeAt[idx] = m
 }
 
 // pollRotation: the autofile group rotates its head (flush, fsync, close, rename) when a
@@ -123,7 +140,11 @@ func openRecWAL(base string, log *kit.WriteLog, record bool, headLimit int) (*re
 	// Nothing is durable except what an explicit fsync covered: the periodic
 	// flush ticker is moved out of the run (see DESIGN, crash engine assumptions).
 	inner.SetFlushInterval(time.Hour)
-	return &recWAL{inner: inner, dir: walDirOf(base), log: log, on: record}, nil
+	w := &recWAL{inner: inner, dir: walDirOf(base), log: log, on: record, sizeAt: map[int]map[string]int64{}}
+	if record {
+		log.BeforeAdd = w.noteSizes
+	}
+	return w, nil
 }
 
 func writeSnapshot(base string, snap map[string][]byte) error {
@@ -157,6 +178,7 @@ type crashRef struct {
 	victim     int
 	log        []kit.Entry
 	snaps      []map[string][]byte
+	sizeAt     map[int]map[string]int64 // WAL file sizes on disk just before each log entry
 	refBlocks  map[uint64]common.Hash
 	refStates  map[uint64]cstate.LatestBlockState // victim's state with LastBlockHeight == key
 	sigs       []*kit.SigRecord                   // victim's signatures in the reference run
@@ -319,6 +341,7 @@ func (s *Sim) runCrash() {
 	vlog.On = false
 	ref.log = append([]kit.Entry(nil), vlog.Entries...)
 	ref.snaps = s.nodes[victim].WAL.(*recWAL).snaps
+	ref.sizeAt = s.nodes[victim].WAL.(*recWAL).sizeAt
 	for h, bh := range s.mon.committed {
 		ref.refBlocks[h] = bh
 		if h > ref.maxH {
@@ -361,6 +384,9 @@ func (s *Sim) runCrash() {
 		modes := []string{"clean"}
 		if s.opt.Tier == "thorough" || s.tape.Chance(1, 4) {
 			modes = append(modes, "torn")
+		}
+		if s.opt.Tier == "thorough" || s.tape.Chance(1, 5) {
+			modes = append(modes, "double")
 		}
 		for _, mode := range modes {
 			points++
@@ -480,6 +506,7 @@ func (s *Sim) crashPoint(ref *crashRef, k int, mode string) {
 	s.res.Fault("crash:" + mode)
 	nViolBefore := len(s.res.Violations)
 	s.violBase = nViolBefore
+	var victimSnap map[string][]byte
 	// images
 	base := filepath.Join(s.scratch, fmt.Sprintf("cp-%d-%s", k, mode))
 	defer os.RemoveAll(base)
@@ -518,6 +545,19 @@ func (s *Sim) crashPoint(ref *crashRef, k int, mode string) {
 					}
 					if len(nb) > len(ob) && string(nb[:len(ob)]) == string(ob) {
 						extra := nb[len(ob):]
+						// only what had reached the file before entry k was made (the log is one total
+						// order: bytes appended after a database write that is not durable are not either)
+						if lim, ok := ref.sizeAt[k]; ok {
+							onDisk := lim[cur] - int64(len(ob))
+							if onDisk <= 0 {
+								continue
+							}
+							if onDisk < int64(len(extra)) {
+								extra = extra[:onDisk]
+							}
+						} else if k < len(ref.log) {
+							continue
+						}
 						x := 1 + s.tape.Draw(len(extra))
 						t := append(append([]byte(nil), ob...), extra[:x]...)
 						if s.tape.Chance(1, 3) && x > 0 {
@@ -532,6 +572,7 @@ func (s *Sim) crashPoint(ref *crashRef, k int, mode string) {
 				s.res.Infra = err.Error()
 				return
 			}
+			victimSnap = snap
 			if s.opt.Verbose {
 				for name, b := range snap {
 					dec := consensus.NewWALDecoder(bytes.NewReader(b))
@@ -597,6 +638,7 @@ func (s *Sim) crashPoint(ref *crashRef, k int, mode string) {
 	sigBefore := len(s.reg.All())
 	replayErr := ""
 	replayErrH := uint64(0) // the height whose messages were not replayed
+	var startSigs [][2]int    // registry index ranges signed inside the victim's start-up (consensus-log replay)
 	for id := 0; id < total; id++ {
 		var err error
 		func() {
@@ -624,7 +666,54 @@ func (s *Sim) crashPoint(ref *crashRef, k int, mode string) {
 				}
 				defer func() { kit.LogSink = prev }()
 			}
+			if id == victim && mode == "double" {
+				// second crash during recovery: restart once with the write log recording, stop
+				// abruptly, keep a tape-chosen prefix of what start-up (finishing an interrupted
+				// commit, replaying the consensus log) had written, and restart from that
+				d := s.disks[id]
+				d.Log.On = true
+				b0 := len(s.reg.All())
+				err = s.startNodeCrash(id, true)
+				startSigs = append(startSigs, [2]int{b0, len(s.reg.All())})
+				if err != nil {
+					return
+				}
+				synctestWait()
+				n1 := s.nodes[id]
+				log2 := append([]kit.Entry(nil), d.Log.Entries...)
+				snaps2 := n1.WAL.(*recWAL).snaps
+				d.Log.On = false
+				s.stopNode(n1)
+				synctestWait()
+				s.nodes[id] = nil
+				if len(log2) == 0 {
+					s.res.Probe("c05-recovery-wrote-nothing")
+				} else {
+					j := 1 + s.tape.Draw(len(log2))
+					d2 := kit.NewDisk()
+					d2.Apply(ref.log[:k])
+					d2.Apply(log2[:j])
+					s.disks[id] = d2
+					img := victimSnap
+					for i := 0; i < j; i++ {
+						if strings.HasPrefix(log2[i].Mark, "wal-fsync") && int(log2[i].Aux) < len(snaps2) {
+							img = snaps2[log2[i].Aux]
+						}
+					}
+					if err = writeSnapshot(s.walDirs[id], img); err != nil {
+						return
+					}
+					where += "; crashed again during the recovery from that"
+					s.res.Fault("crash:second-during-recovery")
+					s.trace("SECOND-CRASH after %d of %d recovery writes (%s)", j, len(log2), describeEntry(log2[j-1]))
+				}
+				s.epochs[id]++
+			}
+			b0 := len(s.reg.All())
 			err = s.startNodeCrash(id, false)
+			if id == victim {
+				startSigs = append(startSigs, [2]int{b0, len(s.reg.All())})
+			}
 		}()
 		if err != nil {
 			who := "another node (clean restart from its final image)"
@@ -671,7 +760,9 @@ func (s *Sim) crashPoint(ref *crashRef, k int, mode string) {
 			s.res.Violate("C05", "store-gap", "after restart the block store has a gap below its head ["+where+"]", fmt.Sprintf("k=%d height %d of head %d", k, h, head))
 			return
 		}
-		if want, ok := ref.refBlocks[h]; ok && want != b.Hash() {
+		// (a lone validator had only committed what it had saved before the crash point: above that
+		// its restarted self may decide anew, and a second restart replays what the first one logged)
+		if want, ok := ref.refBlocks[h]; ok && (total > 1 || h <= savedBlocks) && want != b.Hash() {
 			s.res.Violate("C05", "store-differs", "after restart the block store holds a block different from the one that had been committed ["+where+"]",
 				fmt.Sprintf("k=%d height %d", k, h))
 			return
@@ -699,7 +790,7 @@ func (s *Sim) crashPoint(ref *crashRef, k int, mode string) {
 				fmt.Sprintf("k=%d (%s) committed up to %d, consensus state after restart at %d, applied head %d", k, raw, durableEnd, st.LastBlockHeight, head))
 			return
 		}
-		if twin, ok := ref.refStates[st.LastBlockHeight]; ok {
+		if twin, ok := ref.refStates[st.LastBlockHeight]; ok && (total > 1 || st.LastBlockHeight <= savedBlocks) {
 			if d := diffStates(twin, st); d != "" {
 				s.res.Violate("C05", "state-differs-from-twin", "the restarted node's consensus state differs from its never-crashed twin's: "+d+" ["+where+"]",
 					fmt.Sprintf("k=%d state height %d", k, st.LastBlockHeight))
@@ -773,6 +864,13 @@ func (s *Sim) crashPoint(ref *crashRef, k int, mode string) {
 					what = "a vote or proposal"
 				}
 				whereC := where
+				for _, rg := range startSigs {
+					if r.Seq >= rg[0] && r.Seq < rg[1] && r.Kind == "proposal" && !strings.HasPrefix(where, "node rewound") {
+						// call site rather than window: the replay of the consensus log re-enters the
+						// propose step and signs (whatever the crash point was)
+						whereC = "signed while the consensus log was being replayed at start-up"
+					}
+				}
 				if replayErr != "" && replayErrH == r.Height && !strings.HasPrefix(where, "node rewound") {
 					// the node started without replaying its consensus log of this very height:
 					// whatever it had signed there is forgotten
